@@ -411,6 +411,22 @@ theorem jsonl_outcomes_forward_reverse_text (parse : List Nat → Except ε α) 
     filterMap_relG _ (outcomeOf_rel parse ig) _ _ (fileLinesT_rel false c)]
   rfl
 
+/-! ## `cur_byte_pos` (forward mode, binary file) -/
+
+/-- one position per object of a plain loop -/
+theorem cur_byte_pos_per_object (parse : List Nat → Except ε α) (ig : Bool) (c : List Nat) :
+    (jsonlForwardPosB parse ig c).length = (jsonlForwardB parse ig c).1.length :=
+  consumePos_length parse ig 0 (fileLinesB c)
+
+/-- `cur_byte_pos` read after each object is strictly increasing, lies in `1 … size`, and always
+    stands at the end of a line (just after a LF, or at the end of the file) -/
+theorem cur_byte_pos_increasing (parse : List Nat → Except ε α) (ig : Bool) (c : List Nat) :
+    List.Pairwise (· < ·) (jsonlForwardPosB parse ig c) ∧
+    ∀ q ∈ jsonlForwardPosB parse ig c,
+      0 < q ∧ q ≤ c.length ∧ (q = c.length ∨ endsNL (c.take q) = true) := by
+  have h := consumePos_spec parse ig c.length [] c (Nat.le_refl _)
+  simpa [jsonlForwardPosB] using h
+
 /-! ## JSONLIterator with `rel_seek` (text-mode files of single-byte characters) -/
 
 /-- `_align_to_newline` puts the file ON the first line break at or after the target offset -/
@@ -532,5 +548,8 @@ example : (outcomes toyParse false (fileLinesB [51, 10, 120, 10, 51, 10])).map E
 example : (outcomes toyParse false (reverseIterLines [51, 10, 120, 10, 51, 10] 2)).map Except.toOption
     = [some 3, none, some 3] := by decide
 example : untilError (outcomes toyParse false (fileLinesB [51, 10, 120, 10, 51, 10])) = ([3], some ()) := by decide
+
+-- cur_byte_pos on "3\n\nx\r\n3\n  3": after the records: offsets 2, 8 and 11 (= size)
+example : jsonlForwardPosB toyParse true [51, 10, 10, 120, 13, 10, 51, 10, 32, 32, 51] = [2, 8, 11] := by decide
 
 end C19
